@@ -112,7 +112,7 @@ impl Check for C11 {
         decide(case)
     }
     fn rule(&self) -> String {
-        "random (server id, secret, key); non-trivial = digest negative, or with a leading zero nibble/byte in its printed magnitude; distinct = distinct input. extra: reference-mined inputs with >= 3 leading zero (or F) nibbles".into()
+        "random (server id, secret, key); non-trivial = digest negative, or with a leading zero nibble/byte in its printed magnitude; distinct = distinct input. extra: reference-mined inputs with >= 3 leading zero (or F) nibbles; the serverId the real Mojang adapter sends to the loopback mock for 16 configured server ids; whole logins against a passage child process whose server id (numeric / boolean look-alikes included) comes from a configuration file or the environment".into()
     }
     fn assumptions(&self) -> Vec<String> {
         vec![
